@@ -79,7 +79,7 @@ func runC14(c *core.Ctx, r *core.Result) {
 	r.Assumptions = []string{"agreement of As/Unwrap is required on chains every wrapper of which has an Unwrap method (what the standard library can traverse); Cause agreement on chains every wrapper of which has Cause (the documented difference)"}
 	sent := tm.Sentinels()
 	probes := tm.AsProbes()
-	eachTerm(c, r, p, func(t *tm.Term) {
+	visit := func(t *tm.Term) {
 		nontrivial := false
 		report(r, t, nil, func(t *tm.Term) string {
 			return guarded("C14", func() string {
@@ -211,7 +211,37 @@ func runC14(c *core.Ctx, r *core.Result) {
 		if r.Evaluations%2999 == 1 {
 			r.Sample(map[string]interface{}{"term": t.String()})
 		}
-	})
+	}
+	eachTerm(c, r, p, visit)
+	// multi-cause nodes with an As (or Is) method of their own that declines:
+	// the standard library then searches the branches, and so must the
+	// library. Every ordered pair of leaves as branches, bare and under one
+	// wrapper / inside a join.
+	var idx int64 = 1 << 42
+	var declining int64
+	for _, mop := range []string{"ut.AsMulti", "ut.IsMulti"} {
+		for _, a := range tm.Leaves {
+			for _, b := range tm.Leaves {
+				if a.NSide > 0 || b.NSide > 0 {
+					continue // leaves that capture an error argument: covered by the term spaces
+				}
+				base := func() *tm.Term { return tm.Mk(mop, tm.Mk(a.Name, nil), tm.Mk(b.Name, nil)) }
+				for _, t := range []*tm.Term{
+					base(),
+					tm.Mk("Wrap", base()),
+					tm.Mk("Join2", tm.Mk("GoNew", nil), base()),
+				} {
+					idx++
+					if !c.Mine(idx) {
+						continue
+					}
+					declining++
+					visit(t.FillDefault())
+				}
+			}
+		}
+	}
+	r.Count("declining_method_multi_terms", declining)
 }
 
 func isComparableValue(e error) (ok bool) {
